@@ -36,6 +36,17 @@ def pick_recipe(rng, seed, k):
     return r2.choice(TYPED_RECIPES) if r2.random() < 0.25 else r
 
 
+def zeros_of_both_signs(arr):
+    """some component holds +0.0 and -0.0: which of the two np.min / np.max return is numpy's reduction order (the
+    model keeps the first in storage order) - the byte-level comparison of the min/max rows is then not meaningful"""
+    arr = np.asarray(arr)
+    for c in range(arr.shape[-1]):
+        z = arr[..., c][arr[..., c] == 0]
+        if z.size and np.signbit(z).any() and not np.signbit(z).all():
+            return True
+    return False
+
+
 def load_recipe(path):
     spec = importlib.util.spec_from_file_location('oracle_recipe', path)
     mod = importlib.util.module_from_spec(spec)
@@ -189,6 +200,9 @@ def run_case(seed):
                 if new.ndim < 4:
                     new = new[..., np.newaxis]
                 table.append([lvi, list(lo), list(hi), [np.asarray(new[..., c], dtype='<f8').tobytes(order='F') for c in range(new.shape[-1])]])
+        if any(zeros_of_both_signs(data) for o in oc['levels'] for data in o['data']):
+            count('model comparison skipped: zeros of both signs in a component')
+            continue
         outnames = [keys[i] for i in keep_ids] + new_names
         st, m = model.call('chef', [keep_ids, [x.encode() for x in outnames], table, img_sx])
         mimg = oracle.image_from_sx(m) if st == 'ok' else None
@@ -359,9 +373,7 @@ def run_builtin_case(seed):
             for (lo, hi), data in zip(o['boxes'], o['data']):
                 new = data[..., nk:]
                 has_nan = has_nan or bool(np.isnan(new).any())
-                # +0.0 and -0.0 in one component: np.min / np.max return whichever comes first, the model orders bit patterns
-                has_nan = has_nan or any(bool((new[..., c] == 0).any()) and len(set(np.signbit(new[..., c][new[..., c] == 0]).tolist())) == 2
-                                         for c in range(new.shape[-1]))
+                has_nan = has_nan or zeros_of_both_signs(data)
                 table.append([lvi, list(lo), list(hi), [np.asarray(new[..., c], dtype='<f8').tobytes(order='F') for c in range(new.shape[-1])]])
         count(f"recipe values contain NaN or zeros of both signs={has_nan}")
         if has_nan:
